@@ -20,6 +20,9 @@ class ConnInfo(object):
         self.step_connack_ok = None
         self.t_connack_ok = None
         self.i_refused = None
+        self.refusals = []
+        self.connects = []
+        self.i_connect_accepted = None
         self.i_close_req = None      # first tcall lose/abort
         self.i_lost = None
         self.i_lost_done = None
@@ -200,32 +203,44 @@ class Analysis(object):
                 self.i_end_begin = e["i"]
             elif k == "end":
                 self.end = e
-        # CONNACK acceptance, from the boundary: the first CONNACK delivered
-        # completely to an open connection that has written its CONNECT
+        # CONNACK acceptance, from the boundary: each CONNECT written is answered by the first
+        # CONNACK delivered completely afterwards.  A refusal leaves the protocol idle on an
+        # open transport, where connect() may be called again; the first acceptance makes the
+        # MQTT connection.
         for c in self.conns.values():
+            connects = [e for e in c.pkts if e["pkt"] is not None and e["pkt"]["t"] == "CONNECT"]
+            c.connects = connects
+            k = 0                      # index of the CONNECT awaiting its answer
             for e in c.ins:
-                if c.i_connect_write is None or e["i"] < c.i_connect_write:
+                if k >= len(connects) or e["i"] < connects[k]["i"]:
                     continue
                 if e.get("raw"):
                     pk = [x["pkt"] for x in e["pkts"] if x["pkt"] is not None and x["bad"] is None]
                 else:
                     pk = e["pkts"]
-                done = False
-                for p in pk:
-                    if p["t"] == "CONNACK":
-                        if self._completed(e, c):
-                            if p["rc"] == 0:
-                                c.i_connack_ok = e["i"]
-                                c.step_connack_ok = e["step"]
-                                c.t_connack_ok = e["t"]
-                                c.sp = p["session"]
-                            else:
-                                c.i_refused = e["i"]
-                                c.rc = p["rc"]
-                        done = True
-                        break
-                if done:
+                acks = [p for p in pk if p["t"] == "CONNACK"]
+                if not acks:
+                    continue
+                p = acks[0]
+                if not self._completed(e, c):
+                    break              # the handshake blew up: nothing defined afterwards
+                # a later CONNECT written before this CONNACK supersedes the earlier one
+                while k + 1 < len(connects) and connects[k + 1]["i"] < e["i"]:
+                    k += 1
+                if p["rc"] == 0:
+                    c.i_connack_ok = e["i"]
+                    c.step_connack_ok = e["step"]
+                    c.t_connack_ok = e["t"]
+                    c.sp = p["session"]
+                    cp = connects[k]["pkt"]
+                    c.clean, c.level, c.keepalive = cp["clean"], cp.get("level", 4), cp["keepalive"]
+                    c.i_connect_accepted = connects[k]["i"]
                     break
+                if c.i_refused is None:
+                    c.i_refused = e["i"]
+                    c.rc = p["rc"]
+                c.refusals.append(e["i"])
+                k += 1
         # attach transmissions to requests
         for e in self.pkts:
             p = e["pkt"]
